@@ -215,8 +215,10 @@ def main(argv=None):
             seen_keys.add(v["key"])
         return 1
     if inconclusive:
-        for r in inconclusive:
-            print("INCONCLUSIVE property=%s reason=%s" % (check_id, r))
+        for r in inconclusive[:6]:
+            print("INCONCLUSIVE property=%s reason=%s" % (check_id, r[:700]))
+        if len(inconclusive) > 6:
+            print("INCONCLUSIVE property=%s (+%d more reasons, see evidence file)" % (check_id, len(inconclusive) - 6))
         return 2
     return 0
 
